@@ -4,11 +4,11 @@ package main
 // frame construction / decoding shapes, fresh decode targets, guard facts with caller context.
 
 import (
-	"sort"
-	"go/constant"
 	"fmt"
+	"go/constant"
 	"go/token"
 	"go/types"
+	"sort"
 	"strings"
 
 	"golang.org/x/tools/go/ssa"
